@@ -397,6 +397,9 @@ class H(explore.Harness):
     _cleanups = [0]
 
     def init(self):
+        if self.params.get('max_orphan') and 'server_error' in self.params['kinds']:
+            # the driver defuncts the connection: see the remark at 'defunct' in _events
+            raise HarnessError("'orphan' events are not combined with the answer 'server_error'")
         # no cyclic collection inside an execution: Session.__del__ of an earlier, dead world calls shutdown(),
         # whose waits would pump the *current* world at a moment the collector chooses
         gc.disable()
